@@ -669,6 +669,17 @@ def main(argv):
         seed = int(os.environ.get("VERIF_SEED", "0"))
     except ValueError:
         seed = 0
+    # whole-check watchdog: a hang is a harness problem (exit 2), never a violation
+    import threading
+    limit = float(os.environ.get("VERIF_TIMEOUT", "3300" if tier == "quick" else "14000"))
+
+    def _die():
+        sys.stderr.write(f"HARNESS ERROR: check exceeded {limit:.0f}s\n")
+        sys.stderr.flush()
+        os._exit(2)
+    wd = threading.Timer(limit, _die)
+    wd.daemon = True
+    wd.start()
     try:
         P = props.get(a.prop)
         return run_check(P, tier=tier, seed=seed, replay=a.replay)
